@@ -266,8 +266,114 @@ def runC {α : Type} [DecidableEq α] (cs : Nat → Cfg) (beforeOn : Bool) :
   | _, [] => []
   | sts, e :: es => let r := stepC cs beforeOn sts e; r.2 :: runC cs beforeOn r.1 es
 
+/-! ## `Allow` split at the `Unlock` (round 8)
+
+`Allow` is not one atomic step: the locked part (lookup or creation, `lastSeen`, maybe the sweep)
+ends with `Unlock`, and the goroutine then goes on ALONE with the `*Visitor` it obtained — reading
+the clock and calling `AllowN` on it — while other goroutines run their own locked parts, sweeps
+included.  The limiter is held by pointer: a sweep that removes the map entry does not touch the
+limiter object a goroutine still holds (it keeps working on an orphan), and the identifier's next
+locked part creates a NEW limiter.  So the split model needs a heap:
+
+* `heap a` — the limiter object at address `a` (never freed), `next` — the next free address;
+* `visitors id = some ⟨a, lastSeen⟩` — the map entry points at limiter `a`;
+* `lockStep` — the locked part; returns the address the goroutine goes on with;
+* `tailStep a tb` — the unlocked tail `limiter.AllowN(tb, 1)` on the limiter at `a`;
+* a schedule is a list of `SStep`s: `lock call id now` / `tail call tb` (`call` names the goroutine).
+
+`C18Split.lean` proves that `lockStep` immediately followed by `tailStep` IS `allow2` (so every
+theorem about `run` is a theorem about the schedules in which no two calls overlap), and what
+holds under every interleaving. -/
+
+/-- a map entry: the address of the limiter and `lastSeen` -/
+structure Entry where
+  addr : Nat
+  lastSeen : Nat
+deriving DecidableEq, Repr, Inhabited
+
+/-- `RateLimiterMemoryStore` with limiters held by pointer -/
+structure SStore (α : Type) where
+  heap : Nat → Bucket
+  next : Nat
+  visitors : α → Option Entry
+  lastCleanup : Nat
+
+def SStore.init {α : Type} (t0 : Nat) : SStore α := ⟨fun _ => ⟨0, 0⟩, 0, fun _ => none, t0⟩
+
+/-- `cleanupStaleVisitors` on entries -/
+def cleanupS {α : Type} (c : Cfg) (vis : α → Option Entry) (now : Nat) : α → Option Entry :=
+  fun i => match vis i with
+    | some e => if now - e.lastSeen > c.expiresIn then none else some e
+    | none => none
+
+/-- the locked part of `Allow(id)` at clock reading `now`: the new store and the address of the
+    limiter the goroutine leaves the critical section with -/
+def lockStep {α : Type} [DecidableEq α] (c : Cfg) (st : SStore α) (id : α) (now : Nat) : SStore α × Nat :=
+  let a : Nat := match st.visitors id with
+    | some e => e.addr
+    | none => st.next
+  let heap1 : Nat → Bucket := match st.visitors id with
+    | some _ => st.heap
+    | none => fun x => if x = st.next then fresh c else st.heap x
+  let next1 : Nat := match st.visitors id with
+    | some _ => st.next
+    | none => st.next + 1
+  let vis1 : α → Option Entry := fun i => if i = id then some ⟨a, now⟩ else st.visitors i
+  let sweep := decide (now - st.lastCleanup > c.expiresIn)
+  (⟨heap1, next1, if sweep then cleanupS c vis1 now else vis1, if sweep then now else st.lastCleanup⟩, a)
+
+/-- the unlocked tail of `Allow`: `AllowN(tb, 1)` on the limiter at address `a` -/
+def tailStep {α : Type} (c : Cfg) (st : SStore α) (a tb : Nat) : SStore α × Bool :=
+  let r := allowN c (st.heap a) tb
+  ({ st with heap := fun x => if x = a then r.1 else st.heap x }, r.2)
+
+/-- one step of a schedule -/
+inductive SStep (α : Type) where
+  | lock (call : Nat) (id : α) (now : Nat)
+  | tail (call : Nat) (tb : Nat)
+deriving Repr
+
+/-- the store and, per goroutine (`call`), the limiter address it holds -/
+structure SState (α : Type) where
+  st : SStore α
+  held : Nat → Option Nat
+
+def SState.init {α : Type} (t0 : Nat) : SState α := ⟨SStore.init t0, fun _ => none⟩
+
+/-- one schedule step; a `tail` yields the call's decision (`false` for a tail without a locked
+    part before it: never produced by the harness) -/
+def sstep {α : Type} [DecidableEq α] (c : Cfg) (s : SState α) : SStep α → SState α × Option Bool
+  | .lock k id now =>
+    let r := lockStep c s.st id now
+    (⟨r.1, fun j => if j = k then some r.2 else s.held j⟩, none)
+  | .tail k tb =>
+    match s.held k with
+    | some a => let r := tailStep c s.st a tb; (⟨r.1, s.held⟩, some r.2)
+    | none => (s, some false)
+
+/-- the state after a schedule -/
+def finalS {α : Type} [DecidableEq α] (c : Cfg) : SState α → List (SStep α) → SState α
+  | s, [] => s
+  | s, x :: xs => finalS c (sstep c s x).1 xs
+
+/-- the decisions of a schedule, one per `tail` step, in schedule order -/
+def runS {α : Type} [DecidableEq α] (c : Cfg) : SState α → List (SStep α) → List Bool
+  | _, [] => []
+  | s, x :: xs =>
+    let r := sstep c s x
+    match r.2 with
+    | some b => b :: runS c r.1 xs
+    | none => runS c r.1 xs
+
 /-! ## wire -/
 open Wire
+
+def pSStep : P (SStep (List Nat)) := do
+  let n ← nat
+  match n with
+  | 0 => do let k ← nat; let id ← bytes; let now ← nat; pure (SStep.lock k id now)
+  | 1 => do let k ← nat; let tb ← nat; pure (SStep.tail k tb)
+  | _ => failure
 
 def pEvC : P (EvC (List Nat)) := do
   let t ← nat
@@ -289,10 +395,22 @@ def pRaw : P RawCfg := do
 
 def encOut3 (o : Out3) : List String := [encBool o.ran, toString o.status, toString o.before]
 
-/-- line: `nStores (rateNum rateDen burst expiresIn)* t0 beforeOn n (t kind id [tb] nChain store*)*`
+/-- line (atomic calls): `nStores (rateNum rateDen burst expiresIn)* t0 beforeOn n (t kind id [tb] nChain store*)*`
     → `n (ran status before)*` (`tb` only for kind 4; `burst`/`expiresIn` as configured, 0 =
     default; `t0` = construction instant of every store) -/
 def runLine (line : String) : String :=
+  -- split schedules: `S rateNum rateDen burst expiresIn t0 n (0 call id now | 1 call tb)*` → `m ok*`
+  match parseLine (do
+      let t ← tok
+      if t != "S" then failure
+      let rc ← pRaw
+      let t0 ← nat
+      let ss ← list pSStep
+      pure (rc, t0, ss)) line with
+  | some (rc, t0, ss) =>
+    if rc.rateDen = 0 then "bad-op"
+    else render (encList (fun b => [encBool b]) (runS (mkCfg rc) (SState.init t0) ss))
+  | none =>
   match parseLine (do
       let rcs ← list pRaw
       let t0 ← nat
